@@ -9,6 +9,10 @@ Nothing here imports resonaate.  Deliberately boring:
 * the upper-tail chi-square bound is ``2 * gammainccinv(dof/2, alpha)`` (regularised upper incomplete gamma inverse) and
   every bound is validated *forward* with ``gammaincc`` when it is first computed, so a broken inverse would be noticed
   by the reference itself.
+
+Input builders: covariance kinds I / S / C (every pairwise correlation 0.9..0.99) / M (two C blocks, uncorrelated with
+each other) / W (every pairwise correlation 1e-6), and ``in_units`` = the same covariance expressed in other units
+(D S D): the quadratic form has no unit, so every detector must behave identically in every unit.
 """
 from __future__ import annotations
 
@@ -148,6 +152,77 @@ def spd_matrix(dim, phase):
 
 def identity(dim):
     return [[1.0 if i == j else 0.0 for j in range(dim)] for i in range(dim)]
+
+
+def corr_coefficient(dim):
+    """Magnitude of every pairwise correlation of ``corr_matrix(dim, .)`` (0.9 or more)."""
+    return {1: 0.0, 2: 0.99, 3: 0.97, 4: 0.95}.get(dim, 0.9)
+
+
+WEAK_RHO = 1e-6  # kind W: real but weak correlation; dropping it changes the quadratic form by ~1e-6 (relative)
+
+
+def corr_matrix(dim, phase, rho=None):
+    """Strongly correlated covariance: S_ij = sig_i sig_j rho e_i e_j (i != j), e_i = +-1, rho = corr_coefficient(dim).
+
+    Equicorrelation up to a sign similarity: eigenvalues of the correlation matrix are 1 + (n-1) rho and 1 - rho, so
+    its condition number is < 200; the standard deviations spread by < 1.7, total condition number < 1e3 (checked by
+    the caller).  For dim 1 this is a plain non-unit variance."""
+    sig = [0.8 * 1.5 ** (i / max(1, dim - 1)) * (1.0 + 0.05 * math.sin(phase + 1.7 * i)) for i in range(dim)]
+    sgn = [-1.0 if i % 3 == 1 else 1.0 for i in range(dim)]
+    rho = corr_coefficient(dim) if rho is None else rho
+    return [[sig[i] * sig[j] * (1.0 if i == j else rho * sgn[i] * sgn[j]) for j in range(dim)] for i in range(dim)]
+
+
+def block_split(dim):
+    """Size of the first ('angle-like') block of a mixed-unit covariance of dimension dim."""
+    return (dim + 1) // 2
+
+
+def block_matrix(dim, phase):
+    """Block diagonal covariance: two strongly correlated blocks (sizes block_split(dim), dim - block_split(dim)) that
+    are uncorrelated with each other - e.g. (azimuth, elevation) and (range, range rate) of one radar observation."""
+    k = block_split(dim)
+    a = corr_matrix(k, phase)
+    b = corr_matrix(dim - k, phase + 1.0) if dim > k else []
+    out = [[0.0] * dim for _ in range(dim)]
+    for i in range(k):
+        for j in range(k):
+            out[i][j] = a[i][j]
+    for i in range(dim - k):
+        for j in range(dim - k):
+            out[k + i][k + j] = b[i][j]
+    return out
+
+
+def base_covariance(kind, dim, phase):
+    """The unit-scale covariance of kind I (identity), S (full SPD), C (strongly correlated), M (two such blocks),
+    W (weakly correlated: every pairwise correlation +-1e-6)."""
+    if kind == "I":
+        return identity(dim)
+    if kind == "S":
+        return spd_matrix(dim, phase)
+    if kind == "C":
+        return corr_matrix(dim, phase)
+    if kind == "M":
+        return block_matrix(dim, phase)
+    if kind == "W":
+        return corr_matrix(dim, phase, WEAK_RHO)
+    raise ValueError(kind)
+
+
+def component_units(kind, dim, unit):
+    """Unit of every component: all components in ``unit``, except kind M = first block in ``unit``, second in 1."""
+    if kind == "M":
+        k = block_split(dim)
+        return [unit] * k + [1.0] * (dim - k)
+    return [unit] * dim
+
+
+def in_units(base, units):
+    """D base D for D = diag(units): the same covariance expressed in other units (exactly symmetric)."""
+    n = len(base)
+    return [[base[i][j] * (units[i] * units[j]) for j in range(n)] for i in range(n)]
 
 
 def direction(dim, phase):
